@@ -280,6 +280,11 @@ fn run_mgr<K: BoolKind>(ops: &[NOp]) -> Result<(bool, u64), String> {
             }
         }
     }
+    // the diagram is well-formed and the reference counts are exact after the bookkeeping calls
+    // (add_vars / add_named_vars / add_named_vars_from_map incl. rejected ones, renames)
+    let hs: Vec<&K::F> = handles.iter().map(|h| &h.0).collect();
+    K::audit(&mr, &hs, true).map_err(|e| format!("audit-after-name-operations: {e}"))?;
+    checks += 1;
     Ok((nontrivial, checks))
 }
 
